@@ -86,6 +86,7 @@ def gen_case(rng, i):
     elif ik == 'reversed':
         spec['index'] = list(range(n - 1, -1, -1))
     return {'spec': spec, 'cset': cset, 'epsilon': rng.choice([None, 0, 0.01, 0.5]), 'opts': opts, 'fmt': fmt,
+            'type_checking': rng.choice([None, None, 'strict', 'sloppy']),
             'stale': rng.choice([None, None, 'earlier-run', 'unrelated']) if fmt else None}
 
 
@@ -120,8 +121,10 @@ def run_case(ctx, case):
         cset.pop('creation_metadata', None)
     case = dict(case, cset=cset)
     kw = {} if case['epsilon'] is None else {'epsilon': case['epsilon']}
-    sem = {'epsilon': case['epsilon'], 'type_checking': None}
-    cls = [('fmt=%s' % (case['fmt'] or 'none'),), ('stale=%s' % case['stale'],), ('index=%s' % ('custom' if spec.get('index') is not None else 'default'),)] + \
+    if case.get('type_checking'):
+        kw['type_checking'] = case['type_checking']
+    sem = {'epsilon': case['epsilon'], 'type_checking': case.get('type_checking')}
+    cls = [('fmt=%s' % (case['fmt'] or 'none'),), ('type_checking=%s' % case.get('type_checking'),), ('stale=%s' % case['stale'],), ('index=%s' % ('custom' if spec.get('index') is not None else 'default'),)] + \
           [('%s=%d' % (k, bool(o.get(k, True))),) for k in ('per_constraint', 'write_all', 'index', 'in_place', 'interleave', 'boolean_ints', 'rownumber_is_index')] + \
           [('output_fields=%s' % ('none' if o['output_fields'] is None else 'all' if o['output_fields'] == [] else 'some'),)]
     outdir = os.path.join(ctx.scratch, 'c06out')
